@@ -53,9 +53,14 @@ def dispatch (line : String) : Json :=
     match JrsVerif.J.str? j "op" with
     | none => JrsVerif.J.bad "no op"
     | some op =>
-      match handlers.findSome? (fun h => h op j) with
+      -- several property drivers may know an op of the same name: the first one that can parse
+      -- the operation answers
+      let answers := handlers.filterMap (fun h => h op j)
+      match answers.find? (fun r => (r.getObjVal? "bad").toOption.isNone) with
       | some r => r
-      | none => JrsVerif.J.bad s!"unknown op {op}"
+      | none => match answers.head? with
+        | some r => r
+        | none => JrsVerif.J.bad s!"unknown op {op}"
 
 partial def loop (hin : IO.FS.Stream) (hout : IO.FS.Stream) : IO Unit := do
   let line ← hin.getLine
